@@ -9,12 +9,10 @@ regenerated from the repository source on every run; helper lemmas: `Spl/Lemmas.
   instruction data / program id are the reference's.
 * `bound_covered` — every variant of the three generated instruction-set enums is one of the modelled
   instructions (a variant added to the source breaks this theorem instead of silently escaping).
-* `metas_agree` is FALSE of the current tree: `ataRecoverNested` marks `owner_ata` writable
-  (`owner_ata: Mut<AccountInfo>`), the reference builder `recover_nested` passes it read-only.
-  Hence: `metas_agree_partial` (every other instruction, all keys, any signer list), the witness
-  `metas_agree_witness`, and `metas_recover_nested_exact` (that flag is the only difference).
-  Full statement, restored verbatim once the source is repaired:
-  `theorem metas_agree (pda) (ix) (ms) (hc : Canonical pda ix) (hr : refMetas pda ix = some ms) : fwMetas ix = ms`
+* `metas_agree` — same keys, same order, same signer / writable flags, for all keys and any list of
+  multisig signers, whenever the reference builder produces an instruction. (History: on the tree before
+  `/repo` commit 7d43a17 this was false — `RecoverNested` marked `owner_ata` writable; found by this check,
+  regression case `corpus/C16/recover_nested_owner_ata.replay`.)
 * `mint_view_agree`, `token_view_agree` — for ALL byte images: the reference unpacker accepts ⇒ the
   framework's zero-copy view accepts, with identical field values. (`view_converse_witness`: the converse
   does not hold — not part of the property.)
@@ -70,16 +68,15 @@ theorem bound_covered (t : IxTag) : t ∈ IxTag.all ∧ ∃ ix : Ix, ix.tag = t 
       | exact ⟨.ataCreate [] [] [] [] none none, rfl⟩ | exact ⟨.ataCreateIdempotent [] [] [] [] none none, rfl⟩
       | exact ⟨.ataRecoverNested [] [] [] [] [] [] none, rfl⟩
 
-/-- `metas_agree`, for every bound instruction except `RecoverNested`: whenever the reference builder
-produces an instruction (`refMetas = some ms`; the multisig builders refuse unless `1 ≤ m ≤ n ≤ 11`) and
-the client passed, for the accounts the reference fixes or derives itself, those same keys (`Canonical`),
-the framework's metas are the reference's: same keys, same order, same signer / writable flags — for all
-keys and any list of multisig signers. -/
-theorem metas_agree_partial (pda : List Key → Key → Key) (ix : Ix) (ms : List Meta)
-    (hnr : isRecoverNested ix = false) (hc : Canonical pda ix) (hr : refMetas pda ix = some ms) :
-    fwMetas ix = ms := by
+/-- For every bound instruction: whenever the reference builder produces an instruction
+(`refMetas = some ms`; the multisig builders refuse unless `1 ≤ m ≤ n ≤ 11`) and the client passed, for the
+accounts the reference fixes or derives itself, those same keys (`Canonical`), the framework's metas are
+the reference's: same keys, same order, same signer / writable flags — for all keys and any list of
+multisig signers. -/
+theorem metas_agree (pda : List Key → Key → Key) (ix : Ix) (ms : List Meta)
+    (hc : Canonical pda ix) (hr : refMetas pda ix = some ms) : fwMetas ix = ms := by
   cases ix <;>
-    simp [isRecoverNested, Canonical, refMetas, fwMetas, Ix.tag, IxTag.accounts, fwAccts, metasOf, assoc,
+    simp [Canonical, refMetas, fwMetas, Ix.tag, IxTag.accounts, fwAccts, metasOf, assoc,
       Generated.SysIx.accounts, Generated.TokIx.accounts, Generated.AtaIx.accounts, mW, mR, progId,
       systemId_eq, tokenId_eq, ataId_eq, rentId_eq] at *
   all_goals first
@@ -92,28 +89,11 @@ example : ∃ ms, refMetas (fun _ _ => []) (.tokInitializeMultisig [1] none (Lis
     ∧ Canonical (fun _ _ => []) (.tokInitializeMultisig [1] none (List.replicate 11 [2]) 11)
     ∧ ms.length = 13 := ⟨_, rfl, Or.inl rfl, rfl⟩
 
-/-- `metas_agree` is false of the current tree: a concrete `RecoverNested` on which the framework's metas
-differ from the reference's (the client passes exactly the keys the reference derives). -/
-theorem metas_agree_witness :
-    ∃ (pda : List Key → Key → Key) (ix : Ix) (ms : List Meta),
-      Canonical pda ix ∧ refMetas pda ix = some ms ∧ fwMetas ix ≠ ms :=
-  ⟨fun _ _ => [9], .ataRecoverNested [9] [1] [9] [9] [2] [3] none, _, ⟨rfl, rfl, rfl⟩, rfl, by decide⟩
-
-/-- …and that is the whole difference: meta 3 (`owner_ata`) is writable in the framework
-(`owner_ata: Mut<AccountInfo>`) and read-only in the reference; every key, the order and all other flags
-agree. -/
-theorem metas_recover_nested_exact (pda : List Key → Key → Key)
-    (nestedAta nestedMint destinationAta ownerAta ownerMint wallet : Key) (tokenProgram : Option Key)
-    (ms : List Meta)
-    (hc : Canonical pda (.ataRecoverNested nestedAta nestedMint destinationAta ownerAta ownerMint wallet tokenProgram))
-    (hr : refMetas pda (.ataRecoverNested nestedAta nestedMint destinationAta ownerAta ownerMint wallet tokenProgram) = some ms) :
-    fwMetas (.ataRecoverNested nestedAta nestedMint destinationAta ownerAta ownerMint wallet tokenProgram)
-      = ms.set 3 ⟨ownerAta, false, true⟩ ∧ ms[3]? = some ⟨ownerAta, false, false⟩ := by
-  simp [Canonical, refMetas, fwMetas, Ix.tag, IxTag.accounts, fwAccts, metasOf, assoc,
-    Generated.AtaIx.accounts, mW, mR, progId, tokenId_eq] at *
-  obtain ⟨h1, h2, h3⟩ := hc
-  subst hr
-  simp [h1, h2, h3]
+/-- non-vacuity for the derived-key instructions: a canonical `RecoverNested` (the client passes exactly the
+keys the reference derives), seven metas. -/
+example : ∃ ms, Canonical (fun _ _ => [9]) (.ataRecoverNested [9] [1] [9] [9] [2] [3] none)
+    ∧ refMetas (fun _ _ => [9]) (.ataRecoverNested [9] [1] [9] [9] [2] [3] none) = some ms ∧ ms.length = 7 :=
+  ⟨_, ⟨rfl, rfl, rfl⟩, rfl, rfl⟩
 
 /-- For ALL byte images: if the reference `Mint::unpack` accepts, the framework's `MintAccount` view
 (owner = Token) accepts, and the fields it exposes are the reference's. -/
